@@ -299,8 +299,9 @@ func eAimedRequest(r *rng, f *rules.NetworkRule, text string) *rules.Request {
 	reqURL := genURL(r, []string{text})
 	if d, ok := ePickDomainValue(r, v.DenyAllowDomains); ok && r.chance(2, 3) {
 		h := eHostAround(r, d)
-		if r.chance(1, 6) {
-			h = pick(r, []string{"1.2.3.4", "::1", "10.0.0.5", "fe", "1.2.3.999", "abc"})
+		if r.chance(1, 4) {
+			// IP literals, and names that only LOOK like them (hex digits and dots): `$denyallow` never matches the former
+			h = pick(r, append([]string{"1.2.3.4", "::1", "10.0.0.5", "fe", "1.2.3.999", "abc", "dead::beef", "::ffff:1.2.3.4"}, r1HexNames...))
 		}
 		if hostReq {
 			reqURL = h
